@@ -260,8 +260,11 @@ def used_object(ctx, CouplingAnalysis, data, cid, salt=0):
     """A CouplingAnalysis object that has (in half of the cases) already
     answered other queries: every estimate has to equal its reference
     whatever was asked of the same object before."""
-    ca = CouplingAnalysis(data.copy(), silence_level=3)
+    from pvm.gen.held import as_held
     r = ctx.rng("used", cid, salt)
+    hd, htag = as_held(r, data, allow_list=False)
+    ctx.count("input_held_as:" + htag)
+    ca = CouplingAnalysis(hd, silence_level=3)
     if r.random() < 0.5:
         return ca
     T = data.shape[0]
